@@ -18,7 +18,7 @@ import Mathlib.Tactic.IntervalCases
      (`remove_canonical_counterexample`), which only preserves the relative order of labels (`remove_relabel`);
      removing the LAST item does preserve it (`remove_last_canonical`).
   3. `Crp::draw` over the exact reals: no panic, well-formed result, `(w + 0.5) as usize` exact, and the weight
-     vector handed to `pflip` is `counts ++ [α]` with its exact total at every step (`crpDraw_weights`).
+     vector handed to `crpPflip` is `counts ++ [α]` with its exact total at every step (`crpDraw_weights`).
   4. EPPF: Σ over ALL set partitions of `n` items of `exp (Crp::ln_f)` = 1 for all `n ≥ 1`, `α > 0`
      (`crp_normalised`, enumeration complete and duplicate free), and `ln_f` depends only on block sizes.
 -/
@@ -344,7 +344,7 @@ theorem crpStep_inv {α : Type} [RealLike α] (alpha : α) (s s' : CrpSt α) (u 
   split at h
   · cases h
   · rename_i zi hz
-    have hb := pflipGo_bound _ _ _ _ _ hz
+    have hb := crpPflipGo_bound _ _ _ _ _ hz
     simp only [List.length_append, List.length_singleton, h1, Nat.zero_add] at hb
     split at h
     · rename_i hk
@@ -414,7 +414,7 @@ theorem crpStep_invR (alpha : R) (s s' : CrpSt R) (u : R) (hs : CrpInvR alpha s)
   split at h
   · cases h
   · rename_i zi hz
-    have hb := pflipGo_bound _ _ _ _ _ hz
+    have hb := crpPflipGo_bound _ _ _ _ _ hz
     simp only [List.length_append, List.length_singleton, h1, Nat.zero_add] at hb
     split at h
     · rename_i hk
@@ -500,14 +500,14 @@ theorem crpLoop_invR (alpha : R) (us : List R) (s s' : CrpSt R) (hs : CrpInvR al
       exact ih s1 (crpStep_invR alpha s s1 u hs h1) h
 
 -- @site Crp::draw
-/-- over the exact reals `pflip` cannot reach its `panic!` exit when `0 ≤ u < 1` and `α > 0` -/
+/-- over the exact reals `crpPflip` cannot reach its `panic!` exit when `0 ≤ u < 1` and `α > 0` -/
 theorem crpStep_some (alpha : R) (s : CrpSt R) (u : R) (ha : 0 < alpha.val) (hu0 : 0 ≤ u.val)
     (hu1 : u.val < 1) (hs : CrpInvR alpha s) : ∃ s', crpStep alpha s u = some s' := by
   obtain ⟨h1, h2, h3, h4, h5⟩ := hs
   have hsum : 0 < s.sum.val := by rw [h4]; positivity
-  obtain ⟨zi, hz⟩ : ∃ zi, pflip (s.weights ++ [alpha]) s.sum u = some zi := by
-    unfold pflip
-    apply pflipGo_some
+  obtain ⟨zi, hz⟩ : ∃ zi, crpPflip (s.weights ++ [alpha]) s.sum u = some zi := by
+    unfold crpPflip
+    apply crpPflipGo_some
     · simp only [zero_val, R.mul_val]; positivity
     · simp only [zero_val, R.mul_val, List.map_append, List.sum_append, List.map_cons, List.map_nil,
         List.sum_cons, List.sum_nil, h3, zero_add, add_zero, ← h4]
@@ -544,7 +544,7 @@ theorem wf_of_canonical (z counts : List Nat) (hc : Canonical z) (hl : counts.le
     simp only [numBlocks]; omega
 
 -- @site Crp::draw
-/-- `crpDraw_weights`: at every iteration `pflip` is called with the weight vector `counts ++ [α]` and with
+/-- `crpDraw_weights`: at every iteration `crpPflip` is called with the weight vector `counts ++ [α]` and with
     `sum` equal to its exact total `(items seated) + α`: the seating probabilities are the CRP predictive
     `n_j / (i + α)`, `α / (i + α)`.  (`s` = loop state after any prefix `us` of the variates.) -/
 theorem crpDraw_weights (alpha : R) (us : List R) (s : CrpSt R)
